@@ -212,7 +212,7 @@ pub struct ARun { pub trace: Vec<String>, pub pending: usize, pub dropped: usize
 /// wsched[i] = the packets the caller writes before the (i+1)-th new read() (after a result or a dropped future)
 pub fn aconv_run(rt: &tokio::runtime::Runtime, fr: &Frames, idx: &RepIndex, verify: bool, evs: &[REv], ws: &[WEv], cancels: &[bool], wsched: &[Vec<UOp>]) -> ARun {
     let r = guard(|| rt.block_on(async {
-        let t = Transport::new(evs.to_vec(), ws.to_vec());
+        let t = Transport::new(evs.to_vec(), ws.to_vec()); t.0.lock().unwrap().slow_flush = true;
         let mut f = AFramed::new(Box::new(t.clone()), Codec::new(mode_of(fr.compressed)));
         f.verify_version(verify);
         let mut trace = vec![]; let mut ci = 0usize; let mut dropped = 0usize; let mut si = 0usize;
